@@ -95,6 +95,11 @@ func contractHasTag(c *Contract, p string) bool {
 			return true
 		}
 	}
+	for _, nc := range c.NeedsClean {
+		if hasTag(nc.Tags, p) {
+			return true
+		}
+	}
 	for _, cl := range c.Requires {
 		if hasTag(cl.Tags, p) {
 			return true
